@@ -13,6 +13,7 @@ def all_streams(rng, q, focus):
         ("batches", DRIVER, L.batch_cases()),
         ("chains", DRIVER, L.chain_cases(q)),
         ("timers", DRIVER, L.timer_cases(q)),
+        ("timers-random", DRIVER, L.timer_random(rng, 12 if q else 300)),
         ("random", DRIVER, [L.random_case(rng, rng.randint(8, 40)) for _ in range(120 if q else 3000)]),
         ("random-reg", DRIVER, [L.random_case(rng, rng.randint(8, 30), with_reg=True) for _ in range(40 if q else 600)]),
     ]
